@@ -627,6 +627,11 @@ def enumerated(tier):
         for what in ("discreq", "ping", "gettime"):
             yield {"kind": "history", "noise": noise, "ops": [{"op": "sub", "id": "c0", "types": [26, 5], "script": []}, {"op": "msg", "type": 26, "payload": {"key": 1}}, {"op": "local_disconnect"},
                                                              {"op": "msg", "type": 26, "payload": {"key": 2}}, {"op": "peer", "what": what}, {"op": "msg", "type": 26, "payload": {"key": 3}}]}
+    # several frames in ONE chunk while the client's own disconnect is in flight: each is dispatched, in order
+    for noise in (False, True):
+        for n in (2, 3, 5):
+            yield {"kind": "history", "noise": noise, "ops": [{"op": "sub", "id": "c0", "types": [26, 25], "script": []}, {"op": "local_disconnect"}]
+                   + [{"op": "msg", "type": (26, 25)[k % 2], "payload": {"key": k + 1}, "merge": k < n - 1} for k in range(n)] + [{"op": "peer", "what": "ping"}, {"op": "msg", "type": 26, "payload": {"key": 9}}]}
     # two request/response waiters and a plain subscriber on one type, answers coalesced in one chunk
     for noise in (False, True):
         for n in (2, 3):
